@@ -15,8 +15,8 @@ THEOREMS = ['sauce_extract_total', 'sauce_split_total', 'bitfont_from_bytes_tota
             'ext_table_ok',
             # extension x02: the text loaders (hypothesis of from_bytes_total discharged)
             'file_initial_state', 'file_ansi_char_total', 'file_wrappers_stream_total', 'file_ascii_stream_total', 'file_atascii_stream_total',
-            'file_petscii_stream_total', 'sixel_epilogue_total', 'text_load_total', 'text_load_returns', 'text_load_no_ansi_total', 'fixed_2_witness', 'known_2_before_fix_refuted',
-            'file_macro_limit_only_cuts', 'known_3_witness', 'text_load_hypothesis_discharged', 'from_bytes_total_unconditional', 'from_bytes_no_ansi_total']
+            'file_petscii_stream_total', 'sixel_epilogue_total', 'loaded_font_has_dims', 'text_load_total', 'text_load_total_loaded_font', 'text_load_returns', 'text_load_no_ansi_total', 'fixed_2_witness', 'known_2_before_fix_refuted',
+            'file_macro_limit_only_cuts', 'known_3_before_fix_refuted', 'fixed_3_witness', 'text_load_hypothesis_discharged', 'from_bytes_total_unconditional', 'from_bytes_no_ansi_total']
 SWEEP_LEMMAS = ['C02DispatchProofs.ext_table_sweep (the generated extension table on the 20 listed extensions, upper case, unknown, empty)',
                 'C02Proofs.ega_offsets_small (the 16 generated EGA_COLOR_OFFSETS are < 64)']
 TRUSTED = ['Coq 8.16.1 kernel + vm_compute; no axioms (Print Assumptions: closed)',
@@ -24,7 +24,7 @@ TRUSTED = ['Coq 8.16.1 kernel + vm_compute; no axioms (Print Assumptions: closed
            'harness/src/c02.rs, harness/src/c05.rs (observation of a loaded buffer), props/lib_c07.py (PNG/zTXt/base64 container writer used to deliver payloads)',
            'translator/gen_filemode.py: textual re-instantiation of C01\'s parser models and weak-invariant proof scripts over Model/FileCore.v (Coq checks the result), the pin of every reader of Buffer::is_terminal_buffer',
            'Rust: Vec / slice / String::from_utf8_lossy / char::from_u32 / regex captures / str::parse / chrono / png / base64 / flate2 behave as documented (they are oracles of the models)']
-UNMODELLED = ['text loaders: the sixel decode threads and the font table are oracles of the epilogue of parse_with_parser (which sixels were decoded, their position and pixel size, the size of font 0, whether a decode failed); the arithmetic on them is modelled and proved panic-free for a sane oracle; a sixel next to a degenerate font 0 is known finding C02-sixel-font0',
+UNMODELLED = ['text loaders: the sixel decode threads and the font table are oracles of the epilogue of parse_with_parser (which sixels were decoded, their position and pixel size, the size of font 0, whether a decode failed); the arithmetic on them is modelled and proved panic-free for an oracle that reports a loaded font (a size BitFont::from_bytes can return: 1..=8 x 1..=32 since fix fB, Props/C17.v loaded_font_dims) and sixels inside i32; that every font of a text-loaded buffer comes from BitFont::from_bytes is a census of translator/gen_c02.py (font_sources), not a theorem - the parser models keep the slot numbers of the font table, not the fonts',
               'text loaders: convert_ansi_to_utf8 is the input side of the theorems (they hold for every character list); the parser models are C01\'s, made for `byte as char`: for characters >= U+10000 (a UTF-8 file behind a BOM) ASCII / Avatar truncate with `as u16`, which the models do not follow; cell content beyond (code, background) and the bold-folding loop (identity on that projection)',
               'text loaders: the macro nesting counter of ansi::Parser is the recursion budget of the (regenerated) parser model, MAX_MACRO_NESTING read from the source; the counter discipline of invoke_macro_by_id is pinned by translator/gen_macro.py (see C01)',
               'the PNG / zTXt / zlib / base64 container of .icy files (oracle `icy_chunks`)',
@@ -34,12 +34,12 @@ UNMODELLED = ['text loaders: the sixel decode threads and the font table are ora
               'Layer::from_clipboard_data, Buffer::get_char on a layer whose offset is i32::MIN (overflow after a successful load): not loaders']
 ASSUMPTIONS = ['64-bit usize; files shorter than 2^31 bytes',
                'text loaders: row counters stay below 2^31 (as in C01 / C09); debug-profile arithmetic (overflow checks on), which is what the harness runs',
-               'text loaders: sane sixel oracle (no sixel, or font 0 at least 1 x 1 and every sixel\'s pixel rectangle inside i32) - the complement is known finding C02-sixel-font0']
+               'text loaders: SaneOracle = the size reported for font 0 is the size of a font BitFont::from_bytes returned for some byte string (LoadedFont) and every decoded sixel has a non-negative position / pixel size with (x + 1) * 8 + width <= i32::MAX, (y + 1) * 32 + height <= i32::MAX (SixelBounded). No condition on the font size a FILE could violate is left (the former known class C02-sixel-font0 is fixed: the loaders refuse a glyph size outside 1..=8 x 1..=32)']
 LEVEL_TEXT = ('full for the binary loaders (BIN, ADF, IDF, XBin incl. compressed data, Tundra), SAUCE, fonts, TheDraw, palettes, the from_bytes dispatch AND the eight text loaders '
               '(ans/ice/diz/unknown, avt, pcb, asc, msg, an1-an9, seq, ata): from_bytes_total_unconditional has no hypothesis on the text loaders - every character list, every SAUCE record '
-              '(height 0 included), parsers of C01 re-proved on a file buffer, parse_with_parser epilogue; outside ONE known class (a sixel next to a degenerate font 0; the former second one, a self-invoking macro = C01\'s stack overflow, is repaired by the macro nesting limit: fixed_2_witness, known_2_before_fix_refuted). '
+              '(height 0 included), parsers of C01 re-proved on a file buffer, parse_with_parser epilogue; NO known class of files is left: a self-invoking macro (C01\'s stack overflow) is repaired by the macro nesting limit (fixed_2_witness, known_2_before_fix_refuted), a sixel next to a degenerate font 0 by the size check of the font loaders (fix fB: fixed_3_witness, known_3_before_fix_refuted; the hypothesis `font 0 at least 1 x 1` became `font 0 is a font from_bytes returned`). '
               'Partial for IcyDraw (container is an oracle) and for the sixel epilogue (decode threads / font table are oracles)')
-LEVEL_NOTE = 'one totality theorem per loader over all byte strings / character lists; 12 panics found and fixed (the last one: the todo!() arms of PaletteFormat::Ase), 13th fix: macro nesting limit (2513579); 1 known class left in the text loaders (sixel next to a degenerate font 0)'
+LEVEL_NOTE = 'one totality theorem per loader over all byte strings / character lists; 12 panics found and fixed (the last one: the todo!() arms of PaletteFormat::Ase), 13th fix: macro nesting limit (2513579), 14th: glyph size check of the font loaders (C02-sixel-font0); no known crash class left in the text loaders'
 TECHNIQUE = ('checked-indexing models + induction over fuel/length (guards imply every checked read succeeds), composition with C11 split_total and C17/C05 models; text loaders: a weak invariant of the '
              'terminal core on a file buffer (widths >= 1, margins ordered, cursor >= 0, no condition on heights) kept by every operation, C01\'s character / stream scripts regenerated over it, '
              'initial state of every loader in the invariant for every SAUCE record; fuzz oracle over every extension')
@@ -379,7 +379,7 @@ def search(ctx, broken):
         cases.append(case); what.append(w); labels.append(lbl)
     for lbl, c in REGRESSION + icy_regressions():
         add(c, 'regression', lbl)
-    # the directed files of the text-loader correspondence (incl. the two known classes: they must keep their signatures)
+    # the directed files of the text-loader correspondence (incl. the two former known classes, both fixed: the files must load)
     for lbl, ext, c, _ in c02text.directed():
         add('c2load %s %s' % (ext, g.hexs(c)), 'regression', lbl)
     for lbl, ext, c, w, h, ice in c02text.sauce_directed():
@@ -406,7 +406,11 @@ def search(ctx, broken):
                 for _ in range(b // 3):
                     d, lbl = c02text.stream(rng, ext)
                     if rng.random() < 0.15 and ld in ('ans', 'avt', 'pcb', 'msg', 'an1'):
-                        d = c02text.font0(rng.choice([0, 1, 8, 9, 2 ** 30, 2 ** 31, 2 ** 32 - 1]), rng.choice([0, 1, 16, 2 ** 30, 2 ** 32 - 1])) + d
+                        fw0, fh0 = rng.choice([0, 1, 8, 9, 2 ** 30, 2 ** 31, 2 ** 32 - 1]), rng.choice([0, 1, 16, 32, 33, 2 ** 30, 2 ** 32 - 1])
+                        k0 = rng.random()      # charsize 0 (the recorded witnesses) / charsize = height / a PSF1 header with charsize 0 or 33 / raw data of 33 rows
+                        f0 = (c02text.font0(fw0, fh0) if k0 < 0.4 else c02text.font0(fw0, fh0, fh0) if k0 < 0.8 else
+                              c02text.font0_raw(bytes([0x36, 0x04, 0, rng.choice([0, 33, 255])]) + bytes(40)) if k0 < 0.95 else c02text.font0_raw(bytes(33 * 256)))
+                        d = f0 + d + (c02text.SIXEL if rng.random() < 0.5 else b'')
                     tail = c02text.text_sauce(rng) if rng.random() < 0.3 else b''
                     add('c2load %s %s' % (ext, g.hexs(d + tail)), LOADER_FN[ld], 'x-' + lbl)
     for lbl, d in g.icy_payload_mutants(rng, seeds.get('icy', []), budget * 4):
